@@ -24,3 +24,9 @@ fire("C66", "null_qubit-has-decomp-answer-memoised",
      "R-C66-nocache", "_op_has_decomp")
 silent("C66", "adjoint-wrapped-rules-local-temporary",
        [(_ADJ2, "    return custom_rules + wrapped_rules\n", "    tmp = {}\n    tmp[\"wrapped\"] = wrapped_rules\n    return custom_rules + tmp[\"wrapped\"]\n")])
+
+# --- R-C66-memo
+fire("C66", "controlled-wrappers-memoised-by-operator-and-rule-name",
+     [("pennylane/ops/op_math/controlled2.py", "            _make_controlled_decomp(rule)\n", "            _controlled_decomp_cached(op.base.name, rule)\n"),
+      ("pennylane/ops/op_math/controlled2.py", "def _make_controlled_decomp(", "_CTRL_DECOMPS: dict = {}\n\n\ndef _controlled_decomp_cached(base_name, base_rule):\n    key = (base_name, base_rule.name)\n    if key not in _CTRL_DECOMPS:\n        _CTRL_DECOMPS[key] = _make_controlled_decomp(base_rule)\n    return _CTRL_DECOMPS[key]\n\n\ndef _make_controlled_decomp(")],
+     "R-C66-memo", "_controlled_decomp_cached")
